@@ -73,7 +73,7 @@ Definition cSTRSUB := 12.  Definition cTUPSUB := 13.
 Definition cNPBOOL := 19.  Definition cIDXOBJ := 20. Definition cFLTOBJ := 21.
 Definition cCPXOBJ := 22.  Definition cFUNCTION := 23. Definition cTYPE := 24.
 Definition cMODULE := 25.  Definition cOTHER := 26.  Definition cBUILTINFN := 28.
-Definition cNDARRAY := 29. Definition cPROXY := 30. Definition cUNDEFINED := 31.
+Definition cNDARRAY := 29. Definition cPROXY := 30. Definition cUNDEFINED := 31. Definition cDICT := 32.
 (* user classes: >= 100 *)
 
 (* ---------- values ---------- *)
@@ -104,7 +104,8 @@ Inductive pv :=
 | POther (n : Z)                     (* dict / set / object(): unhashable iff n < 0 *)
 | PArray (dt : Z) (shape : list Z) (cid : Z)   (* numpy.ndarray: dtype id, shape, content id *)
 | PProxy (cls : Z) (id : Z)          (* transparent proxy: its type is Proxy, its __class__ reports class cls *)
-| PUndefined.                        (* traits.api.Undefined: the "no value yet" singleton *)
+| PUndefined                         (* traits.api.Undefined: the "no value yet" singleton *)
+| PDict (l : list (pv * pv)).        (* dict (and TraitDictObject): items in insertion order *)
 
 Definition class_of (v : pv) : Z :=
   match v with
@@ -123,6 +124,7 @@ Definition class_of (v : pv) : Z :=
   | PArray _ _ _ => cNDARRAY
   | PProxy _ _ => cPROXY
   | PUndefined => cUNDEFINED
+  | PDict _ => cDICT
   end.
 
 (* ---------- structural equality (same type tag, same atom) ---------- *)
@@ -143,6 +145,12 @@ Fixpoint pv_eqb (a b : pv) : bool :=
     match l, m with
     | [], [] => true
     | x :: l', y :: m' => pv_eqb x y && go l' m'
+    | _, _ => false
+    end in
+  let fix gop (l m : list (pv * pv)) : bool :=
+    match l, m with
+    | [], [] => true
+    | (k, x) :: l', (k', y) :: m' => pv_eqb k k' && pv_eqb x y && gop l' m'
     | _, _ => false
     end in
   match a, b with
@@ -166,6 +174,7 @@ Fixpoint pv_eqb (a b : pv) : bool :=
   | PArray k s c, PArray k' s' c' => (k =? k') && zlist_eqb s s' && (c =? c')
   | PProxy c i, PProxy c' i' => (c =? c') && (i =? i')
   | PUndefined, PUndefined => true
+  | PDict l, PDict m => gop l m
   | _, _ => false
   end.
 
@@ -214,7 +223,7 @@ Definition py_in (v : pv) (l : list pv) : bool := existsb (py_eq v) l.
 
 Fixpoint hashable (v : pv) : bool :=
   match v with
-  | PList _ | PArray _ _ _ => false
+  | PList _ | PArray _ _ _ | PDict _ => false
   | POther n => 0 <=? n
   | PTuple l | PTupleSub l => forallb hashable l
   | _ => true
@@ -347,7 +356,8 @@ Definition truthy (v : pv) : bool :=
   | PComplex r i => fl_truthy r || fl_truthy i
   | PStr s | PStrSub s | PBytes s => negb (is_nil_pv s)
   | PTuple l | PTupleSub l | PList l => negb (is_nil_pv l)
-  | POther n => negb (n =? -1)       (* -1: the empty dict *)
+  | POther n => negb (n =? -1)
+  | PDict l => negb (is_nil_pv l)
   | _ => true
   end.
 
